@@ -7,7 +7,7 @@ use rusty_parser::{
 use crate::converter::common::{ConvertibleIn, ExprContext, ExprContextPos};
 use crate::converter::expr_rules::variable::{
     AssignToFunction, ExistingConst, ExistingVar, VarAsUserDefinedFunctionCall, VarResolve,
-    add_as_new_implicit_var,
+    add_as_new_implicit_var, is_function_result,
 };
 use crate::core::{LintError, LintErrorPos, LinterContext};
 
@@ -23,7 +23,7 @@ pub fn convert(
         // checking out if we have an existing variable / const etc that contains a dot
         let mut rules: Vec<Box<dyn VarResolve>> = vec![];
         rules.push(Box::new(ExistingVar::default()));
-        if extra.element != ExprContext::Default {
+        if is_function_result(ctx, &extra, &folded_name) {
             rules.push(Box::new(AssignToFunction::default()));
         } else {
             // no need to check for built-in, they don't have dots
